@@ -26,9 +26,30 @@ NOTES = {
  "r2-C17-1": "first missed by C17 (U+0085 in text); C1 controls, U+0085, U+2028/9 added to the pools.",
  "r2-C19-1": "first missed by C19 and C08 (profile=true loop drops the indicator); C19 toggles profile/exact_errors, C08 compares the sequence of feed() results.",
  "r2-C20-1": "C20 first did not terminate on this change (RcDom's own ancestor walk looped on the stale parent link): exit 143 when killed. C20 now compares every handle's parent link after every direct operation and reports the stale link where it is created; the engine has a watchdog (exit 2).",
+ "r3-C01-1": "first missed by C01 (needs a sink that switches the tokenizer state in answer to an END tag); policies now have end-tag keys.",
+ "r3-C02-1": "first missed by C02 (SVG/MathML fragment context named form + breakout + <form>); C02 now enumerates every fragment context x short probe sequences.",
+ "r3-C04-1": "first missed by C04 (meta content with characters whose lower-casing changes the UTF-8 length); such content values added to the HTML generator.",
+ "r3-C04-2": "first evaluation inconclusive (harness edited during the run); needs a multi-byte character at a quirks-table prefix length in the public identifier; doctype mutations and a sweep with a multi-byte character at every position added.",
+ "r3-C06-1": "first missed by C06 (U+000B treated as white space); characters next to HTML white space added to the generator.",
+ "r3-C08-2": "first missed by C08 and C02 (<pre> + stray DOCTYPE + LF under drop_doctype); the ignore-next-LF rule x every kind of next token added.",
+ "r3-C09-2": "first missed by C09 (line not forwarded before TreeSink::parse_error for error tokens); C09 now checks the forwarded line at every TreeSink call.",
+ "r3-C10-1": "first missed by C10 (LossyDecoder::new_from_encoding_rs_decoder with a BOM-handling UTF-8 decoder); that entry point is now exercised with every kind of decoder.",
+ "r3-C10-2": "first missed by C10 (caught by C15): XML driver resumes only once per process(); C10's parser-level cases now use generated markup.",
+ "r3-C11-1": "first missed by C11 (U+E000 mis-classified); the edges of every code-point range added.",
+ "r3-C11-2": "first missed by C11 (read_to_tendril after a hard I/O error); read_to_tendril from scripted readers added.",
+ "r3-C12-1": "first missed by C12: the defect is an out-of-bounds READ (contents end up right); every other case now runs on a guard-page allocation scheme, and the generator grows short views of the tail of shared buffers.",
+ "r3-C12-2": "first missed by C12 and C11 (Extend from an iterator whose size_hint lies); such iterators added.",
+ "r3-C13-1": "first missed by C13 (eat with a caller-supplied comparison other than the two in-tree ones); custom comparisons added.",
+ "r3-C14-1": "first missed by C14 and C15 (xml5ever: stale state in a recycled character-reference tokenizer, visible only in a SECOND reference); every ordered pair of reference-shaped pieces must now resolve as each does alone.",
+ "r3-C15-1": "first missed by C15 (caught by C13): keyword spanning three or more buffers when several chunks are queued before one feed(); that schedule added to C15 and C03.",
+ "r3-C16-1": "first missed by C16 (64-bit fold of the expanded name collides for e.g. count/sound); names over tiny alphabets added.",
+ "r3-C16-2": "first missed by C16 (unprefixed p-id after p:id treated as duplicate); colon-replaced spellings added.",
+ "r3-C18-1": "first missed by C18 (head pointer untraced while a template opened after </head> is open; needs a script that detaches two ancestors); scripts now detach sets of ancestors, ancestors continue through template hosts, scripts are placed inside templates next to the head/form pointers.",
+ "r3-C19-1": "first missed by C19 and (at that snapshot) C08: U+FEFF dropped where the parser resumes after an EncodingIndicator; C19's resumption relation is now decided independently of the reference comparison (which had excluded the case as 'C02's business'), and both generators put U+FEFF at resumption points.",
+ "r3-C20-2": "first missed by C20 (copies lose the annotation-xml integration-point flag, invisible in the dump); element flags are now compared in lockstep.",
  "C02-2": "patch re-based by hand after /repo commit 01c708b moved the changed block (original kept as patch.orig.diff).",
 }
-for d in sorted(glob.glob(os.path.join(root, "seeded", "C*-*")) + glob.glob(os.path.join(root, "seeded", "r2-C*-*"))):
+for d in sorted(glob.glob(os.path.join(root, "seeded", "C*-*")) + glob.glob(os.path.join(root, "seeded", "r2-C*-*")) + glob.glob(os.path.join(root, "seeded", "r3-C*-*"))):
     name = os.path.basename(d)
     log = os.path.join(d, "eval.log")
     if not os.path.exists(log):
